@@ -436,7 +436,9 @@ def main():
 
     # ---------------- merged meshes: a load on the common boundary of the two parts ----------------
     from EasyFEA.FEM import Mesh as _Mesh
-    for et in (["TRI3", "QUAD8", "HEXA8"] if not thorough else ["TRI3", "TRI6", "QUAD4", "QUAD8", "TETRA4", "HEXA8", "PRISM6"]):
+    # (element types whose translated copy meets the first block in a CONFORMING interface: an unstructured tetrahedral mesh does not - the
+    # triangulation of its face x = 1 is not the translate of the one of its face x = 0 -, and the merged mesh then rightly keeps both sets of triangles)
+    for et in (["TRI3", "QUAD8", "HEXA8"] if not thorough else ["TRI3", "TRI6", "QUAD4", "QUAD8", "HEXA8", "PRISM6"]):
         dimm = M.dim_of(et)
         identM = dict(elemType=et, mesh="Mesh.Merge of the block [0, 1] x [0, 1] (x [0, 1.5]) and its translate by (1, 0, 0)", load="add_surfLoad(nodes on x = 1, [0.5 + y], ['x'])")
         res.case(("merged-mesh interface load", et))
